@@ -507,20 +507,27 @@ def sym_ite(c, a, b):
 class SymInt:
     """Python int backed by a z3 Int term (mathematical integer: Python ints do not wrap).
     `width`: if set, the value is known to satisfy 0 <= v < 2**width (used by bit operations)."""
-    __slots__ = ('t', 'width', 'mag')
+    __slots__ = ('t', 'width', 'mag', 'zero_parts')
     _sx_symbolic = True
 
-    def __init__(self, t, width=None, mag=None):
+    def __init__(self, t, width=None, mag=None, zero_parts=None):
         self.t = t
         self.width = width
         self.mag = mag if mag is not None else width      # |v| < 2**mag when known
+        self.zero_parts = zero_parts     # non-negative terms whose positive-weighted sum is the value
+
+    def _is_zero(self):
+        """value == 0 as a Bool term; a weighted sum of bytes is zero iff every byte is (cheaper for the solver)"""
+        if self.zero_parts:
+            return z3.And(*[p == 0 for p in self.zero_parts]) if len(self.zero_parts) > 1 else self.zero_parts[0] == 0
+        return self.t == 0
 
     def __repr__(self):
         return f'SymInt({self.t})'
 
     # ---- conversions
     def __bool__(self):
-        return eng().decide(self.t != 0)
+        return eng().decide(z3.Not(self._is_zero()))
 
     def __index__(self):
         return eng().concretize(self.t)
@@ -612,10 +619,14 @@ class SymInt:
     # ---- comparisons
     def __eq__(self, o):
         if not _isint(o): return False
+        if self.zero_parts and type(o) is int and o == 0:
+            return mk_bool(self._is_zero())
         return mk_bool(self.t == zi(o))
 
     def __ne__(self, o):
         if not _isint(o): return True
+        if self.zero_parts and type(o) is int and o == 0:
+            return mk_bool(z3.Not(self._is_zero()))
         return mk_bool(self.t != zi(o))
 
     def __lt__(self, o):
@@ -624,10 +635,14 @@ class SymInt:
 
     def __le__(self, o):
         if not _isint(o): return NotImplemented
+        if self.zero_parts and type(o) is int and o == 0:
+            return mk_bool(self._is_zero())
         return mk_bool(self.t <= zi(o))
 
     def __gt__(self, o):
         if not _isint(o): return NotImplemented
+        if self.zero_parts and type(o) is int and o == 0:
+            return mk_bool(z3.Not(self._is_zero()))
         return mk_bool(self.t > zi(o))
 
     def __ge__(self, o):
@@ -702,7 +717,7 @@ def _conc(k):
     return k
 
 
-ABSTRACT = {'nonlinear': False, 'digits': False, 'algebra': False, 'floats': False, 'xor_uf': False}
+ABSTRACT = {'nonlinear': False, 'digits': False, 'algebra': False, 'floats': False, 'xor_uf': False, 'uf_digits': False}
 _XOR8 = z3.Function('xor8', z3.IntSort(), z3.IntSort(), z3.IntSort())
 
 
